@@ -482,6 +482,11 @@ func insertGuarded(c *Ctx, fn *ssa.Function, mu *ssa.MapUpdate, collisionFns map
 				if reachesCollisionReturn(occupied, nil, collisionFns) && fail != nil && fail != mu.Block() && !blockReaches(fail, mu.Block()) {
 					return true, fmt.Sprintf("dominated by the probe helper called at %s: its occupied edge returns the collision error, which leaves before the insert", c.instrPos(g.via))
 				}
+				// the helper hands back the occupant (nil: free); the caller
+				// turns a non-nil result into the collision error
+				if isContentPtr(g.via.Type()) && g.val != nil && returnsValueFrom(occupied, g.val) && fail != nil && reachesCollisionReturn(fail, mu, collisionFns) {
+					return true, fmt.Sprintf("dominated by the probe helper called at %s: it returns the occupant, and a non-nil result returns the collision error before the insert", c.instrPos(g.via))
+				}
 				continue
 			}
 			if reachesCollisionReturn(occupied, mu, collisionFns) {
@@ -698,7 +703,30 @@ func parentsBeforeInsert(c *Ctx, fn *ssa.Function, mu *ssa.MapUpdate) (bool, str
 }
 
 func insertsOnlyImplicitDirs(fn *ssa.Function, mu *ssa.MapUpdate) bool {
-	al, ok := mu.Value.(*ssa.Alloc)
+	return implicitDirValue(mu.Value, 0)
+}
+
+// implicitDirValue: v is a freshly built entry of the implied-directory type -
+// a composite literal, or the result of a constructor all of whose returns
+// are such literals.
+func implicitDirValue(v ssa.Value, depth int) bool {
+	if call, isCall := v.(*ssa.Call); isCall && depth < 2 {
+		sc := call.Call.StaticCallee()
+		if sc == nil || len(sc.Blocks) == 0 {
+			return false
+		}
+		n := 0
+		for _, b := range sc.Blocks {
+			if ret, isRet := b.Instrs[len(b.Instrs)-1].(*ssa.Return); isRet && len(ret.Results) == 1 {
+				n++
+				if !implicitDirValue(ret.Results[0], depth+1) {
+					return false
+				}
+			}
+		}
+		return n > 0
+	}
+	al, ok := v.(*ssa.Alloc)
 	if !ok {
 		return false
 	}
@@ -1024,7 +1052,7 @@ func guardsOf(c *Ctx, fn *ssa.Function, mu *ssa.MapUpdate) []guardLookup {
 				}
 			}
 			res := sc.Signature.Results()
-			if mi >= 0 && mi < len(sc.Params) && res.Len() == 1 && types.Identical(res.At(0).Type(), errorType) && onlyProbes(sc, sc.Params[mi]) {
+			if mi >= 0 && mi < len(sc.Params) && res.Len() == 1 && (types.Identical(res.At(0).Type(), errorType) || isContentPtr(res.At(0).Type())) && onlyProbes(sc, sc.Params[mi]) {
 				// a probe helper that reports the collision itself: its
 				// lookups guard the insert through the error it returns
 				forEachInstr(sc, func(i2 ssa.Instruction) {
@@ -1033,7 +1061,7 @@ func guardsOf(c *Ctx, fn *ssa.Function, mu *ssa.MapUpdate) []guardLookup {
 						return
 					}
 					v, ok := extracts(lk)
-					g := guardLookup{at: lk, val: v, ok: ok, forms: keySpellingsAt(c, lk.Index, sc, x), nkeys: 1, via: x}
+					g := guardLookup{at: lk, val: v, ok: ok, forms: keySpellingsAt(c, lk.Index, sc, x), nkeys: literalKeyCount(lk.Index), via: x}
 					// the helper's key is the same field of the same entry as the insert's key
 					if ld, isLd := lk.Index.(*ssa.UnOp); isLd && ld.Op == token.MUL {
 						if fa, isFA := ld.X.(*ssa.FieldAddr); isFA {
@@ -1087,6 +1115,17 @@ func guardsOf(c *Ctx, fn *ssa.Function, mu *ssa.MapUpdate) []guardLookup {
 // keySpellingsAt: spellings of a key expression inside a helper, with the
 // helper's parameters standing for the arguments of one call of it.
 func keySpellingsAt(c *Ctx, v ssa.Value, helper *ssa.Function, call *ssa.Call) map[string]bool {
+	// the key variable of a loop over a literal list of keys
+	// (`for _, key := range [...]string{dst, otherKind(dst)}`): every listed key
+	if elems := literalListElems(v); len(elems) > 0 {
+		out := map[string]bool{}
+		for _, e := range elems {
+			for f := range keySpellingsAt(c, e, helper, call) {
+				out[f] = true
+			}
+		}
+		return out
+	}
 	if prm, ok := v.(*ssa.Parameter); ok {
 		for i, q := range helper.Params {
 			if q == prm && i < len(call.Call.Args) {
@@ -1454,4 +1493,95 @@ func checkChangelogJoinsPlan(c *Ctx, r *Report) {
 			"with a changelog configured some path returns without adding the entry: a declared entry at the changelog's destination would take its place without the collision being reported")
 	}
 	r.Floor("K5-changelog", n, 1)
+}
+
+// literalKeyCount: the number of keys a lookup probes - the length of the
+// literal key list when its index is the variable of a loop over one, else 1.
+func literalKeyCount(v ssa.Value) int {
+	if n := len(literalListElems(v)); n > 0 {
+		return n
+	}
+	return 1
+}
+
+// literalListElems: v is the element variable of a loop over a local literal
+// array or slice (`range [...]T{a, b}` indexes a copy of the array value,
+// `range []T{a, b}` loads through an element address): the listed values.
+func literalListElems(v ssa.Value) []ssa.Value {
+	var arr *ssa.Alloc
+	var self ssa.Value
+	switch x := v.(type) {
+	case *ssa.Index:
+		if ld, ok := x.X.(*ssa.UnOp); ok && ld.Op == token.MUL {
+			arr, _ = ld.X.(*ssa.Alloc)
+		}
+	case *ssa.UnOp:
+		if x.Op != token.MUL {
+			return nil
+		}
+		ia, ok := x.X.(*ssa.IndexAddr)
+		if !ok {
+			return nil
+		}
+		self = ia
+		switch y := ia.X.(type) {
+		case *ssa.Alloc:
+			arr = y
+		case *ssa.Slice:
+			arr, _ = y.X.(*ssa.Alloc)
+		}
+	}
+	if arr == nil || arr.Referrers() == nil {
+		return nil
+	}
+	byIdx := map[int64]ssa.Value{}
+	for _, ref := range *arr.Referrers() {
+		ea, ok := ref.(*ssa.IndexAddr)
+		if !ok || ssa.Value(ea) == self || ea.Referrers() == nil {
+			continue
+		}
+		k, isConst := ea.Index.(*ssa.Const)
+		if !isConst {
+			continue
+		}
+		for _, r2 := range *ea.Referrers() {
+			if st, ok := r2.(*ssa.Store); ok && st.Addr == ssa.Value(ea) {
+				byIdx[k.Int64()] = st.Val
+			}
+		}
+	}
+	var out []ssa.Value
+	for i := int64(0); i < int64(len(byIdx)); i++ {
+		if e, ok := byIdx[i]; ok {
+			out = append(out, e)
+		}
+	}
+	return out
+}
+
+// returnsValueFrom: some return reachable from start hands back v.
+func returnsValueFrom(start *ssa.BasicBlock, v ssa.Value) bool {
+	seen := map[*ssa.BasicBlock]bool{}
+	var dfs func(b *ssa.BasicBlock) bool
+	dfs = func(b *ssa.BasicBlock) bool {
+		if seen[b] {
+			return false
+		}
+		seen[b] = true
+		if ret, ok := b.Instrs[len(b.Instrs)-1].(*ssa.Return); ok {
+			for _, res := range retResults(ret) {
+				if res == v {
+					return true
+				}
+			}
+			return false
+		}
+		for _, s := range b.Succs {
+			if dfs(s) {
+				return true
+			}
+		}
+		return false
+	}
+	return dfs(start)
 }
